@@ -183,18 +183,13 @@ bool congruence<Number>::operator<=(const congruence<Number> &o) const {
     return true;
   } else if (o.is_bottom()) {
     return false;
-  } else if (m_a == 0 && o.m_a == 0) {
-    return (m_b == o.m_b);
-  } else if (m_a == 0) {
-    if ((m_b % o.m_a) == (o.m_b % o.m_a)) {
-      return true;
-    }
   } else if (o.m_a == 0) {
-    if (m_b % m_a == (o.m_b % m_a)) {
-      return false;
-    }
+    // only the same singleton is included in a singleton
+    return (m_a == 0 && m_b == o.m_b);
+  } else {
+    // aZ+b <= a'Z+b' iff a' divides a and b - b'
+    return (m_a % o.m_a == 0) && ((m_b - o.m_b) % o.m_a == 0);
   }
-  return (m_a % o.m_a == 0) && (m_b % o.m_a == o.m_b % o.m_a);
 }
 
 template <typename Number>
